@@ -23,6 +23,15 @@ def _schema(with_ct: bool = True):
     schema.s.name = StringField(default="n")
     schema.s.inc = IncludeField(startdir="/cfg")
     schema.s.t.c = IntField(min=0, default=3)
+    schema.v.limit = IntField(default=10)      # sub-configuration with a schema-level validator
+    schema.v.used = IntField(default=1)
+    schema.r.must = IntField(required=True)   # ... and one with a required field that has no default
+    schema.r.opt = IntField(default=0)
+
+    def _used_le_limit(cfg):
+        if cfg.used is not None and cfg.limit is not None and cfg.used > cfg.limit:
+            raise ValueError("used > limit")
+    schema.v._validators.append(_used_le_limit)
     schema.lst = ListField(IntField(min=0), default=lambda: [1])
     schema.d = DictField(StringField(), IntField(min=0), default=lambda: {"k": 1})
     schema.items = ListField(item, default=lambda: [])
@@ -68,10 +77,13 @@ def _state(cfg: Config, sa: bool, sb: bool, sl: bool, si: bool, x: int):
     if si:
         cfg.items = [{"v": x}, {"v": 1}]
         cfg.ct.v = x
+        cfg.r.must = x
+        cfg.v.limit = x + 5
 
 
 OPS = ("attr", "dotted", "submap", "submap_partial", "sub_wrongtype", "ct_map", "ct_ctor", "l_append", "l_insert",
-       "l_setitem", "d_setitem", "d_setdefault", "items_append", "items_setitem", "ctor_kw")
+       "l_setitem", "d_setitem", "d_setdefault", "items_append", "items_setitem", "ctor_kw",
+       "submap_validator", "submap_required", "dotted_submap_validator", "load_tree_nested_validator")
 
 
 def _rejected(op: str, bad_i: int, sa: bool, sb: bool, sl: bool, si: bool, x: int) -> bool:
@@ -118,6 +130,15 @@ def _rejected(op: str, bad_i: int, sa: bool, sb: bool, sl: bool, si: bool, x: in
             cfg.items[0] = {"v": bad}
         elif op == "ctor_kw":
             schema(a=5, lst=[1], s={"b": bad})
+        elif op == "submap_validator":
+            # every entry is valid on its own; the resulting sub-configuration fails its schema validator
+            cfg.v = {"limit": 1, "used": 2}
+        elif op == "submap_required":
+            cfg.r = {"opt": 4}   # valid entries, but the required field stays unset: rejected by whole-config validation
+        elif op == "dotted_submap_validator":
+            cfg["v"] = {"used": 99}
+        elif op == "load_tree_nested_validator":
+            cfg.load_tree({"v": {"limit": 1, "used": 2}})
     except Exception:  # noqa: BLE001 - which exception is C15's subject
         after = snap(cfg)
         hold("unchanged", after[0] == before[0], lambda: "values changed by a rejected %s: %r -> %r" % (op, before[0], after[0]))
@@ -150,7 +171,8 @@ for _o in OPS:
 
 # ----------------------------------------------------------------------------- document loads that fail
 def _doc_tree():
-    return {"a": 5, "s": {"b": 6, "name": "zz", "t": {"c": 7}}, "lst": [3, 4], "d": {"k": 2}, "items": [{"v": 8}]}
+    return {"a": 5, "s": {"b": 6, "name": "zz", "t": {"c": 7}}, "lst": [3, 4], "d": {"k": 2}, "items": [{"v": 8}],
+            "r": {"must": 1}}
 
 
 @obligation(prop="C06", sites=("unchanged",), stubs=("FakeFS", "MemFormat"),
@@ -159,11 +181,12 @@ def _doc_tree():
             budget={"quick": 120, "thorough": 300},
             examples=({"where": 0, "kind": 0, "sa": True, "sb": False, "x": 1},
                       {"where": 1, "kind": 2, "sa": False, "sb": True, "x": 1}),
-            what="Config.loads whose include file (root or nested scope) is missing / a directory / unreadable, or "
-                 "whose document is unknown to the parser: raises and leaves the configuration unchanged")
+            what="Config.loads whose include file (root or nested scope) is missing / a directory / unreadable / not "
+                 "a document, also when an EARLIER include resolved fine, or whose main document is unknown to the "
+                 "parser: raises and leaves the configuration unchanged (include field values included)")
 def failed_include_unchanged(where: int, kind: int, sa: bool, sb: bool, x: int) -> bool:
     """
-    pre: 0 <= where <= 2 and 0 <= kind <= 2 and 0 <= x <= 1000
+    pre: 0 <= where <= 4 and 0 <= kind <= 2 and 0 <= x <= 1000
     post: _
     """
     fs = FakeFS(dirs=["/cfg", "/cfg/dir"], unreadable=["/cfg/secret.mem"])
@@ -179,7 +202,18 @@ def failed_include_unchanged(where: int, kind: int, sa: bool, sb: bool, x: int) 
             if kind == i:
                 path = cand
         tree = _doc_tree()
-        if where == 0:
+        if where == 3:
+            # first include resolves and parses, a LATER one (nested scope) fails
+            fs.files["/cfg/good.mem"] = mem.put({"a": 9})
+            tree["inc"] = "good.mem"
+            tree["s"]["inc"] = path
+            doc = mem.put(tree)
+        elif where == 4:
+            # the include file exists but is not a document of the format
+            fs.files["/cfg/garbage.mem"] = b"MEM:garbage"
+            tree["inc"] = "garbage.mem"
+            doc = mem.put(tree)
+        elif where == 0:
             tree["inc"] = path
             doc = mem.put(tree)
         elif where == 1:
